@@ -219,7 +219,7 @@ Proof.
       specialize (IH true b (set_buf h' [] lv) (sq', snd stamp) r). destruct (flush c t p h' true b _ _ r) as [res e2].
       cbn [snd] in *. rewrite !nob_app, FS, IH. reflexivity.
     + destruct (l_chaser (get_level h' lv) || (h' =? 0)%nat); cbn [snd]; [apply nob_return_errors|].
-      specialize (IH false leader (set_buf h' [] lv) (fst stamp, snd stamp) r). destruct (flush c t p h' false leader _ _ r) as [res e2].
+      match goal with |- context [flush c t p h' false leader (set_buf h' [] lv) ?sx r] => specialize (IH false leader (set_buf h' [] lv) sx r) end. destruct (flush c t p h' false leader _ _ r) as [res e2].
       cbn [snd] in *. rewrite nob_app, nob_return_errors, IH. reflexivity.
 Qed.
 Lemma nob_pp_forward c t p st m stamp ls pre : nob pre = true -> nob (snd (pp_forward c t p st m stamp ls pre)) = true.
@@ -656,7 +656,7 @@ Proof.
       specialize (IH true b (set_buf h' [] lv) (sq', snd stamp) r). destruct (flush c t p h' true b _ _ r) as [res e2].
       cbn [snd] in *. rewrite !nosu_app, FS, IH. reflexivity.
     + destruct (l_chaser (get_level h' lv) || (h' =? 0)%nat); cbn [snd]; [apply nosu_return_errors|].
-      specialize (IH false leader (set_buf h' [] lv) (fst stamp, snd stamp) r). destruct (flush c t p h' false leader _ _ r) as [res e2].
+      match goal with |- context [flush c t p h' false leader (set_buf h' [] lv) ?sx r] => specialize (IH false leader (set_buf h' [] lv) sx r) end. destruct (flush c t p h' false leader _ _ r) as [res e2].
       cbn [snd] in *. rewrite nosu_app, nosu_return_errors, IH. reflexivity.
 Qed.
 Lemma nosu_pp_forward c t p st m stamp ls pre : nosu pre = true -> nosu (snd (pp_forward c t p st m stamp ls pre)) = true.
